@@ -12,4 +12,7 @@ def run(ctx):
         "JSON-equal (DESIGN 6.0): numbers by value, key order irrelevant; the only tolerated difference is an optional property given as "
         "explicit null being omitted (Semantics!Norm applied to both sides)",
         "only documents using declared properties and accepted by the reference validator of the source format are judged",
-    ], must=("optional-collections",))
+        "C01 only needs the decoders and the encoder: Go is generated with generate_json_marshaller and generate_strict_unmarshaller "
+        "only, so that a defect in the emitted Equals/Validate (C13/C08/C02's subject) cannot hide a package from this check",
+    ], must=("optional-collections", "times-and-numeric-unions"),
+        go_flags={"generate_json_marshaller": True, "generate_strict_unmarshaller": True})
